@@ -12,16 +12,17 @@ SPEC = dict(
                "quarter the notebook path is a symbolic link (absolute, relative beside it, relative into a sibling directory, dangling) while the "
                "binary runs in another working directory. Some saves repeat an earlier one with every field as before except that two keywords become one "
                "that contains the comma (or the reverse); the retrying loader behind the search command is run in-process with the main file unreadable "
-               "for its first attempts (repaired from the retry observer) and must still hand over main followed by notebook. A crash of the save command refutes 'reports success' outright. A second engine saves (as uid 65534 via setpriv) while the existing "
+               "for its first attempts (repaired from the retry observer) and must still hand over main followed by notebook. A saved pipeline must also be listed by "
+               "`wtf pipeline <its unique word>`; an eighth of the homes have names with dots (two in a row), blanks, non-ASCII letters or shell metacharacters. A crash of the save command refutes 'reports success' outright. A second engine saves (as uid 65534 via setpriv) while the existing "
                "notebook cannot be read or its directory cannot be written: earlier entries must survive whatever save reports.",
     level_note="Keywords/platforms are kept free of commas/quotes so the flag's CSV split is unambiguous; NUL cannot be passed through execve.",
     engines=[dict(name="notebook", shards=T(16, 16), timeout=T(1200, 7200), needs_wtf=True),
              dict(name="notebook-faults", shards=T(8, 16), timeout=T(1200, 7200), needs_wtf=True)],
     rule="case = one save step inside a history; non-trivial = a save that reported success and whose notebook was re-loaded and compared; distinct by "
          "(history, step, arguments).",
-    floors=T({"re-saves-with-the-keyword-list-split-differently": 5, "merge-checked-after-transient-main-failure": 80, "search-after-save-main-shipped": 30, "search-after-save-main-generated-large": 30, "notebook-symlink-relative-same-dir": 3, "notebook-symlink-relative-sibling-dir": 3, "notebook-symlink-absolute": 3, "save-succeeded": 600, "save-replaced-existing": 60, "merge-checked": 200, "search-after-save": 200, "start-missing": 10, "start-populated": 10,
+    floors=T({"pipeline-search-after-save-pipeline": 30, "homes-with-unusual-names": 6, "re-saves-with-the-keyword-list-split-differently": 5, "merge-checked-after-transient-main-failure": 80, "search-after-save-main-shipped": 30, "search-after-save-main-generated-large": 30, "notebook-symlink-relative-same-dir": 3, "notebook-symlink-relative-sibling-dir": 3, "notebook-symlink-absolute": 3, "save-succeeded": 600, "save-replaced-existing": 60, "merge-checked": 200, "search-after-save": 200, "start-missing": 10, "start-populated": 10,
               "fault-unreadable-0200": 10, "fault-save-reported-failure": 20, "fault-save-reported-success": 8, "distinct_nontrivial": 600},
-             {"re-saves-with-the-keyword-list-split-differently": 300, "merge-checked-after-transient-main-failure": 4000, "search-after-save-main-shipped": 1000, "search-after-save-main-generated-large": 1000, "notebook-symlink-relative-same-dir": 100, "notebook-symlink-relative-sibling-dir": 100, "notebook-symlink-absolute": 100, "save-succeeded": 15000, "save-replaced-existing": 1000, "merge-checked": 4000, "search-after-save": 4000, "start-missing": 200, "start-populated": 200,
+             {"pipeline-search-after-save-pipeline": 1500, "homes-with-unusual-names": 300, "re-saves-with-the-keyword-list-split-differently": 300, "merge-checked-after-transient-main-failure": 4000, "search-after-save-main-shipped": 1000, "search-after-save-main-generated-large": 1000, "notebook-symlink-relative-same-dir": 100, "notebook-symlink-relative-sibling-dir": 100, "notebook-symlink-absolute": 100, "save-succeeded": 15000, "save-replaced-existing": 1000, "merge-checked": 4000, "search-after-save": 4000, "start-missing": 200, "start-populated": 200,
               "fault-unreadable-0200": 150, "fault-save-reported-failure": 200, "fault-save-reported-success": 150, "distinct_nontrivial": 15000}),
     assumptions=["save-pipeline: documented auto-keywords (pipeline, workflow, search, filter, text, processing, sort, order, find) may precede the given keywords; "
                  "without --description the generated description is accepted"],
